@@ -867,6 +867,7 @@ Proof.
     destruct (_ =? 4294967295); reflexivity. }
   intros [hlen ext] _.
   destruct (zlen buf <? ext); [reflexivity|].
+  destruct (ext <? hlen); [reflexivity|].
   set (sbuf := sub 0 ext buf).
   assert (OKs : bytes_ok sbuf = true) by (apply bytes_ok_sub; auto).
   destruct (rd 3 1 buf =? 2).
@@ -920,6 +921,7 @@ Proof.
     destruct (forallb _ _); [injection Hed as <- <-; lia|discriminate]. }
   destruct (_ && _); [reflexivity|].
   destruct (zlen buf <? ext) eqn:LE; [reflexivity|].
+  destruct (ext <? doff); [reflexivity|].
   apply np_bind.
   { destruct (_ && _); [|reflexivity]. destruct (_ <=? doff); reflexivity. }
   intros nv _.
@@ -1090,6 +1092,7 @@ Proof.
   apply refines_bind; [apply refines_refl|]. intros [ext doff].
   ref_step; [apply refines_refl|].
   ref_step; [apply refines_refl|].
+  ref_step; [apply refines_refl|].
   apply refines_bind; [apply refines_refl|]. intros nv.
   ref_step; [apply refines_refl|].
   apply refines_bind; [apply sections_loop_refines; auto|]. intros; apply refines_refl.
@@ -1104,6 +1107,7 @@ Proof.
   unfold section_body. cbv zeta.
   ref_step; [apply refines_refl|].
   apply refines_bind; [apply refines_refl|]. intros [hlen ext].
+  ref_step; [apply refines_refl|].
   ref_step; [apply refines_refl|].
   ref_step.
   { ref_step; [apply refines_refl|]. ref_step; [apply refines_refl|].
@@ -1208,9 +1212,9 @@ Notation pfv := (parse_fv dec u2s nvar).
 
 Lemma section_buf d pol buf i n p : psec d pol buf i = Ok (n, p) ->
   exists h kids, n = NSec h (sub 0 (s_ext h) buf) kids /\
-    s_ext h <= zlen buf /\ 4 <= zlen buf /\
+    s_hlen h <= s_ext h <= zlen buf /\
     s_size3 h = rd 0 3 buf /\ s_type h = rd 3 1 buf /\
-    (s_hlen h = 4 \/ (s_hlen h = 8 /\ 8 <= zlen buf /\ s_ext h = rd 4 4 buf)).
+    (s_hlen h = 4 \/ (s_hlen h = 8 /\ s_ext h = rd 4 4 buf)).
 Proof.
   destruct d as [|d]; [discriminate|]. rewrite parse_section_S. intros H.
   apply section_body_inv in H as (h & kids & -> & L4 & LE & LH & F1 & F2 & _ & HL & _).
@@ -1228,13 +1232,14 @@ Qed.
 
 Lemma file_buf d pol buf n p : pfile d pol buf = Ok (Some n, p) ->
   exists h kids, n = NFile h (sub 0 (f_ext h) buf) kids /\
-    f_ext h <= zlen buf /\ 24 <= zlen buf /\ file_hdr_from h buf /\
+    f_dataoff h <= f_ext h <= zlen buf /\ file_hdr_from h buf /\
     ((f_dataoff h = 24 /\ f_ext h = f_size3 h) \/
-     (f_dataoff h = 32 /\ f_size3 h = 16777215 /\ 32 <= zlen buf /\ f_ext h = rd 24 8 buf)).
+     (f_dataoff h = 32 /\ f_size3 h = 16777215 /\ f_ext h = rd 24 8 buf)).
 Proof.
   destruct d as [|d]; [discriminate|]. rewrite parse_file_S. intros H.
   apply file_body_inv in H as (h & kids & -> & L & LE & LD & HF & HL & _).
-  exists h, kids. repeat split; auto; apply HF.
+  exists h, kids. split; [reflexivity|]. split; [lia|]. split; [exact HF|].
+  destruct HL as [?|(? & ? & _ & ?)]; auto.
 Qed.
 
 Lemma file_fields_inside (Hdec : dec_ok dec) d pol buf h fb kids p : bytes_ok buf = true ->
@@ -1403,6 +1408,7 @@ Proof.
     destruct (forallb _ _); [injection Hed as <- <-; lia|discriminate]. }
   destruct (_ && _); [reflexivity|].
   destruct (zlen buf <? ext) eqn:LE; [reflexivity|].
+  destruct (ext <? doff); [reflexivity|].
   apply nf_bind.
   { destruct (_ && _); [|reflexivity]. destruct (_ <=? doff); reflexivity. }
   intros nv _.
@@ -1439,6 +1445,7 @@ Proof.
     destruct (zlen buf <? 8); [discriminate|].
     destruct (_ =? 4294967295); [discriminate|injection Hhe as <- <-; lia]. }
   destruct (zlen buf <? ext); [reflexivity|].
+  destruct (ext <? hlen); [reflexivity|].
   set (sbuf := sub 0 ext buf).
   assert (OKs : bytes_ok sbuf = true) by (apply bytes_ok_sub; auto).
   pose proof (zlen_sub_le 0 ext buf) as LS. fold sbuf in LS.
